@@ -257,6 +257,7 @@ class InputScope(PSBTScope):
                 raise PSBTError("Duplicated utxo value")
             else:
                 l = compact.read_from(stream)
+                start = stream.tell()
                 # we verified and saved utxo
                 if self.compress and self.txid and self.vout is not None:
                     txout, txhash = self.TX_CLS.read_vout(stream, self.vout)
@@ -265,6 +266,9 @@ class InputScope(PSBTScope):
                 else:
                     tx = self.TX_CLS.read_from(stream)
                     self.non_witness_utxo = tx
+                # transaction must occupy exactly the declared length of the value
+                if stream.tell() - start != l:
+                    raise PSBTError("Invalid length of non-witness utxo")
             return
 
         v = read_string(stream)
